@@ -4,6 +4,7 @@ CONSTANTS
   StatGuard = FALSE
   CcStopsAtExisting = FALSE
   MaxDepth = 3
+  Universe = "chain"
   Emit = TRUE
 INVARIANT CTypeOK
 INVARIANT InvResolves
